@@ -23,7 +23,8 @@ META = {
              'ted from Python floats and NumPy scalars.'
              " Round 12: NIfTI headers with qform and sform both set (equal / different) or the qform alone."
              " Round 17: pixdim / qform voxel sizes that differ from the sform's column norms."
-             " Round 18: rerun with an image of the same grid and another affine."),
+             " Round 18: rerun with an image of the same grid and another affine."
+             " Round 21: a destination that still holds the info of the volume before resampling; sub-check scaling_grid enumerates stored type x slope (exactly 1 included) x intercept x --ignore-scaling x api/cli."),
     "trusted_base": ["nibabel (writes the file, reports the affine the tool "
                      "sees)", "float64 arithmetic with relative tolerance "
                      "1e-9"],
@@ -179,6 +180,34 @@ def check_case(ctx, case):
                 if not case["gzip"]:
                     argv.append("--no-gzip")
                 A_first = None
+                if (case["seed"] // 7) % 3 == 0 and not case.get("rerun") \
+                        and case["sharding"] is None:
+                    # redoing the metadata after resampling the volume: the
+                    # destination still holds the `info` generated for an
+                    # image with other voxel sizes, while info_fullres.json
+                    # and transform.json have been deleted
+                    from neuroglancer_scripts.scripts import (
+                        generate_scales_info as gsi)
+                    M0 = np.array(case["affine"]["matrix"], dtype=float)
+                    M0[:3, :3] = M0[:3, :3] @ np.diag([2.0, 0.5, 3.0])
+                    path0 = os.path.join(d, "before_resampling.nii")
+                    nifti.write_nifti(path0, raw, M0, slope, inter)
+                    img0, ok0 = nifti.load_checked(path0, raw, slope, inter)
+                    if ok0 and v2p.main([argv[0], path0] + argv[2:]) in (0,
+                                                                         4):
+                        try:
+                            gsi.generate_scales_info(
+                                os.path.join(dest, "info_fullres.json"),
+                                dest, target_chunk_size=4)
+                        except Exception:     # noqa - C08 judges that tool
+                            ctx.rmtree(dest)
+                        else:
+                            os.remove(os.path.join(dest,
+                                                   "info_fullres.json"))
+                            os.remove(os.path.join(dest, "transform.json"))
+                            ctx.count("stale_info_of_another_volume")
+                    elif os.path.isdir(dest):
+                        ctx.rmtree(dest)
                 if case.get("rerun") and not expect_error:
                     # the destination already holds the description of an
                     # earlier image (same voxels, another affine)
@@ -366,8 +395,45 @@ def run(ctx, n):
     ctx.run_hypothesis(cases(), check, n)
 
 
+def grid_cases():
+    """Every stored type x header slope (exactly 1 included) x intercept x
+    --ignore-scaling, on one small rotated volume, through the library call
+    and the command."""
+    M = [[0.0, -1.5, 0.0, 10.0], [2.0, 0.0, 0.0, -4.0],
+         [0.0, 0.0, 0.5, 3.0], [0.0, 0.0, 0.0, 1.0]]
+    out = []
+    for dt in STORED:
+        for slope in (1.0, 0.5, 2.0):
+            for inter in (0.0, -3.0, 100.5, 0.25):
+                for ign in (False, True):
+                    for cli in (False, True):
+                        out.append({
+                            "shape": [3, 2, 2], "layout": "3d", "dtype": dt,
+                            "scaling": [slope, inter],
+                            "affine": {"kind": "rot", "matrix": M},
+                            "ignore_scaling": ign, "sharding": None,
+                            "gzip": True, "cli": cli, "rerun": False,
+                            "units": None, "seed": 1 + len(out),
+                            "xforms": None, "gz": False})
+    return out
+
+
+def run_scaling_grid(ctx, n):
+    def check(ctx, case):
+        r = check_case(ctx, case)
+        if r is None:
+            return
+        ctx.record(case, case["scaling"][1] != 0 or case["scaling"][0] != 1,
+                   ["grid." + case["dtype"],
+                    "slope.%g" % case["scaling"][0],
+                    "cli" if case["cli"] else "api"])
+    ctx.run_grid(grid_cases(), check)
+
+
 def replay(ctx, case):
     check_case(ctx, case)
 
 
-SUBS = [Sub("metadata", run, replay, quick=1500, thorough=480000)]
+SUBS = [Sub("metadata", run, replay, quick=1500, thorough=480000),
+        Sub("scaling_grid", run_scaling_grid, replay, quick=1, thorough=1,
+            shards=8, sweep=True)]
